@@ -315,6 +315,13 @@ def run(R):
     calls = [c for c in cpe.calls if short(c.name) == EUR]
     withdef = [c for c in calls if any(o.kind == "call" and short(o.call.name).endswith("ColumnDefinition::default_value")
                                        for o in F.origins(cpe, c.args[3], depth=4))]
+    if not withdef:
+        # the default handed over lazily: a closure `|| column.default_value()` as the argument
+        for c in calls:
+            for ck in (c.func.get("closure_args") or []):
+                g_ = P.fns.get(ck)
+                if g_ is not None and any(short(x.name).endswith("ColumnDefinition::default_value") for x in g_.calls):
+                    withdef.append(c)
     if withdef:
         R.ok("C01.options", "default->lookup", "single-group columns pass column.default_value() as the lookup default", withdef[0].loc())
     else:
